@@ -332,7 +332,8 @@ double Inverse_Transform_Sampling(const std::function<double(double)>& cdf, doub
 	std::function<double(double)> fct = [&cdf, xi](double x) {
 		return xi - cdf(x);
 	};
-	return Find_Root(fct, xMin, xMax, 1e-10 * (xMax - xMin));
+	double x = Find_Root(fct, xMin, xMax, 1e-10 * (xMax - xMin));
+	return std::min(xMax, std::max(xMin, x));
 }
 
 double Rejection_Sampling(const std::function<double(double)>& PDF, double xMin, double xMax, double yMax, std::mt19937& PRNG)
